@@ -25,6 +25,10 @@ type Case struct {
 	Permute []bool   `json:"permute"` // [0] is R's (forced to 1 by the code)
 	// Inputs are 0/1 strings over the input wires; empty = all 2^n.
 	Inputs []string `json:"inputs"`
+	// Rounds > 1: the same circuit value is garbled, evaluated and
+	// released Rounds times with fresh randomness (the later garblings
+	// run on recycled scratch buffers).
+	Rounds int `json:"rounds,omitempty"`
 }
 
 func init() { ev.Register("garble", run) }
@@ -46,6 +50,9 @@ func genCase(t *rapid.T) Case {
 	cs.Permute = make([]bool, nin+1)
 	for i := range cs.Permute {
 		cs.Permute[i] = rapid.Bool().Draw(t, "permute")
+	}
+	if rapid.IntRange(0, 3).Draw(t, "multi") == 0 {
+		cs.Rounds = rapid.IntRange(2, 4).Draw(t, "rounds")
 	}
 	if nin > 10 {
 		n := rapid.IntRange(1, 8).Draw(t, "ninputs")
@@ -85,10 +92,33 @@ func xor(a, b ot.Label) ot.Label {
 }
 
 func run(cs Case) ev.Outcome {
+	circ := cs.Circ.Build()
+	rounds := cs.Rounds
+	if rounds < 1 {
+		rounds = 1
+	}
+	var out ev.Outcome
+	for r := 0; r < rounds; r++ {
+		out = runRound(cs, circ, uint64(r))
+		if out.Err != "" || out.Skip != "" {
+			if out.Err != "" && r > 0 {
+				out.Sig += "/regarble"
+				out.Err = fmt.Sprintf("garbling #%d of the same circuit value: %s", r+1, out.Err)
+			}
+			return out
+		}
+	}
+	if rounds > 1 {
+		out.Classes = append(out.Classes, "regarbled-after-release")
+		out.Evals *= rounds
+	}
+	return out
+}
+
+func runRound(cs Case, circ *circuit.Circuit, round uint64) ev.Outcome {
 	c := cs.Circ
-	circ := c.Build()
-	d := gen.NewDRBG(cs.Seed, 1)
-	key := gen.NewDRBG(cs.Seed, 2).Bytes(cs.KeyLen)
+	d := gen.NewDRBG(cs.Seed, 1+16*round)
+	key := gen.NewDRBG(cs.Seed, 2+16*round).Bytes(cs.KeyLen)
 	rd := &gen.LabelReader{D: d, Permute: cs.Permute}
 
 	g, err := circ.Garble(rd, key)
